@@ -120,7 +120,9 @@ class FormulaParser:
             for index, token in enumerate(tokens):
                 new_tokens.append(token)
 
-                if type(token.tvalue) == str:
+                # A string literal is never part of a range expression,
+                # whatever characters it contains.
+                if type(token.tvalue) == str and token.tsubtype != 'text':
 
                     # example -> :OFFSET( or simply :A10
                     if token.tvalue.startswith(':'):
